@@ -1,6 +1,7 @@
 """C01: model codecs round-trip every admissible value and report its exact size."""
 import hashlib
 import signal
+import time
 
 from .. import codec
 from ..common import blit, coq_eval
@@ -214,8 +215,9 @@ def run_network(check, net, per_class, per_class_mutants):
 		for tree_, data_ in structured_sources:
 			mutant_stream += structured_mutants(net, model, tree_, data_)
 		for data, how in mutant_stream:
+			started = time.time()
 			des_text, decoded = impl_des(net, name, data)
-			if len(des_text) > 200000:
+			if len(des_text) > 200000 or time.time() - started > 0.75:
 				# resource rule: a mutated count that makes the codec build tens of thousands of elements out of a few bytes (reads past
 				# the end yield zeros) is evaluated on the implementation only; the model would need gigabytes to print the same tree
 				check.case(f'{net.name}:mutant:exhausting', (name, data.hex()), False)
@@ -239,7 +241,7 @@ def run_network(check, net, per_class, per_class_mutants):
 						check.fail(signature('decode-encode-decode', name, data.hex()),
 							f'{net.name}.{name}: decode-encode-decode is not stable',
 							{'network': net.name, 'class': name, 'bytes': data.hex(), 'op': 'decode-encode-decode'})
-	models = coq_eval(PRELUDE + net.coq_import, exprs, f'c01{net.name}', shard=50)
+	models = coq_eval(PRELUDE + net.coq_import, exprs, f'c01{net.name}', shard=50, timeout=240)
 	exhausted = 0
 	for expr, impl_text, model_text, info in zip(exprs, expected, models, meta):
 		if 'OutOfFuel' in model_text or 'Timeout' in impl_text:
